@@ -126,6 +126,12 @@ WITNESSES = [
     ["userobj", "FalsyState", [["flag", ["bool", False]]]], ["userobj", "FalsyState", [["flag", ["int", 0]]]],
     ["list", [["userobj", "FalsyState", [["flag", ["tuple", []]]]], ["userobj", "FalsyState", [["flag", ["dict", []]]]], ["userobj", "FalsyState", [["flag", ["int", 3]]]]]],
     ["userobj", "WithState", [["payload", ["none"]]]], ["userobj", "Plain", []], ["userobj", "Slotted", []],
+    # a Generator whose seed sequence has spawned children; sparse matrices that are not in canonical form (duplicates, unsorted)
+    ["generator", "PCG64", 3, 2, 2], ["list", [["generator", "Philox", 1, 0, 1], ["generator", "SFC64", 1, 1, 3]]],
+    ["sparse", "csr", [3, 4], 1, "noncanonical"], ["sparse", "coo", [5, 2], 2, "noncanonical"], ["sparse", "csc", [3, 4], 3, "noncanonical"],
+    # an instance and its own bound method: the method's owner must be that instance
+    ["list", [["userobj", "Plain", [["a", ["int", 1]]]], ["method", ["ref", 0]]]],
+    ["dict", [[["str", "m"], ["method", ["userobj", "Plain", [["a", ["ndarray", "<f8", [2], "C", 1, False]]]]]], [["str", "o"], ["ref", 1]]]],
 ]
 
 
